@@ -30,7 +30,7 @@ def main(chk):
     chk.assumptions += ['O1/O2 inputs: all finite, |coordinate| <= 1e6, 1e-9 <= voxel size <= 1e6, min < max per axis (the code\'s own precondition), grid extent/voxel size <= 1e6, point inside [min,max] per axis',
                         'vector growth (_M_fill_insert / _M_default_append) is stubbed in the arithmetic harnesses O1-O3: allocation size is not their subject']
     chk.bounds = {'O1': 'no loops; one symbolic box, voxel size and point; cbmc time limit %ds per axis' % (120 if quick else 1200), 'O3': 'voxel counts < 2^21 per axis, indices < counts',
-                  'O4/O5': 'grids of at most 3 voxels per axis, 2 stored points'}
+                  'O4/O5': 'one stored point and one query point within one voxel size; one axis symbolic over a grid of <= 3 voxels, the other two axes symbolic within one voxel; voxel size concrete (1 quick; 1, 1/1024, 37/8 thorough), |min| <= 1e3; exact reals'}
 
     # ---- translator validation --------------------------------------------------------------------------
     sc = api.Session(ir, mode='ieee')
@@ -148,6 +148,9 @@ def main(chk):
                     chk.ob(nm, st, True, dt)
             break
 
+    # ---- O4/O5 retrievability and neighbourhood completeness on the real containers (exact reals) ----
+    o45(chk, ir, native, quick)
+
     # ---- O3 32-bit wrap ------------------------------------------------------------------------------------------
     o3(chk, ir, native, z, nop)
 
@@ -168,6 +171,93 @@ def replay_index(native, h, model):
     inbox = all(din[a] <= din[7 + a] <= din[3 + a] for a in range(3))
     return {'reproduced': bool(bad) and inbox, 'what': ('native: voxel counts %r, index of the in-box point %r (axis %s out of range)' % (nb, idx, ','.join(bad))) if bad else 'native index in range',
             'din': din, 'box_contains_point': inbox}
+
+def o45(chk, ir, native, quick):
+    """one stored point p and one query point q with |p-q|_inf <= voxel size, one axis fully symbolic (up to 3 voxels), the two
+    other axes symbolic inside a single voxel: the object must be in its own voxel, in the neighbourhood of q, and exactly once in the grid content"""
+    names = ['minx', 'miny', 'minz', 'maxx', 'maxy', 'maxz', 'v', 'px', 'py', 'pz', 'qx', 'qy', 'qz']
+    vsizes = [Fraction(1)] if quick else [Fraction(1), Fraction(1, 1024), Fraction(37, 8)]
+    jobs = [(g, ax, vs) for g in (4, 3) for ax in range(3) for vs in vsizes]
+    def work(i):
+        g, ax, vs = jobs[i]
+        V = {n: S.var(n) for n in names}
+        V['v'] = S.const(vs)
+        v = V['v']
+        pre = []
+        for a, axn in enumerate('xyz'):
+            mn, mx, p, q = V['min' + axn], V['max' + axn], V['p' + axn], V['q' + axn]
+            pre += [S.cmp('lt', mn, mx), S.cmp('ge', p, mn), S.cmp('le', p, mx), S.cmp('ge', q, mn), S.cmp('le', q, mx),
+                    S.cmp('le', S.sub(p, q), v), S.cmp('le', S.sub(q, p), v)]
+            width = S.mul(v, S.const(Fraction(5, 2))) if a == ax else S.mul(v, S.const(Fraction(1, 2)))
+            pre += [S.cmp('le', S.sub(mx, mn), width)]
+            pre += [S.cmp('le', mn, S.const(1000)), S.cmp('ge', mn, S.const(-1000))]
+        s2 = api.Session(ir, mode='real'); z2 = SV.Z3Ctx()
+        ctl, res = s2.explore('h_c20_neigh', [V[n] for n in names], [g], assumptions=pre, zctx=z2, max_paths=300, branch_timeout_ms=5000, eager_ints=True)
+        out = []
+        for (tr, pc, r) in res:
+            st = getattr(r, 'status', None)
+            if st == 'pathend': continue
+            key = ''.join(('T' if d.taken else 'F') if d.kind == 'b' else '[%d]' % d.value for d in tr if not d.forced)
+            item = {'key': key, 'status': st}
+            if st == 'ok':
+                item['iout'] = [x if type(x) is int else repr(x) for x in r.iout]
+                stw, model = SV.satisfiable(z2, pc, 20000)
+                item['witness'] = stw; item['model'] = dict({k: float(Fraction(v_)) for k, v_ in (model or {}).items() if k in names}, v=float(vs))
+            else:
+                item['error'] = repr(getattr(r, 'error', None))[:300]
+                if st == 'memory':
+                    stw, model = SV.satisfiable(z2, pc, 20000)
+                    item['witness'] = stw; item['model'] = dict({k: float(Fraction(v_)) for k, v_ in (model or {}).items() if k in names}, v=float(vs))
+            out.append(item)
+        return out, ctl.exhausted, s2.functions_called, z2.queries, z2.solver_time
+    outs = par.pmap(work, len(jobs))
+    for (g, ax, vs), (out, exhausted, fc, nq, st_) in zip(jobs, outs):
+        tag = 'uspg_%dd/O4-O5 axis %s voxel %s' % (g, 'xyz'[ax], vs)
+        chk.functions |= fc; chk.queries += nq; chk.solver_s += st_; chk.paths += len(out)
+        if not exhausted: chk.fail_closed.append(tag + ': path budget exhausted')
+        good = 0
+        for item in out:
+            nm = '%s/path %s' % (tag, item['key'] or '-')
+            if item['status'] == 'memory' and item.get('witness') == 'sat':
+                rep = replay_neigh(native, g, item['model'], names)
+                chk.ob(nm + '/no invalid access', 'violated' if rep['reproduced'] else 'unknown', True, 0, detail={'error': item['error'], 'replay': rep})
+                if rep['reproduced']: chk.violation('C20/O4/uspg_%dd/container access out of range' % g, '%s: %s; %s' % (nm, item['error'], rep['what']), rep)
+                continue
+            if item['status'] != 'ok':
+                if item.get('witness') != 'unsat': chk.fail_closed.append(nm + ': ' + item['status'] + ' ' + item.get('error', ''))
+                continue
+            if item['witness'] == 'unsat': continue
+            if item['witness'] == 'sat': chk.witnesses += 1; good += 1
+            own, nb, allc = item['iout'][0:3]
+            for (lab, val, key) in (('stored object found in its own voxel', own, 'not-retrievable'), ('stored object returned by the neighbourhood of every point within one voxel size', nb, 'neighbour-missed'),
+                                    ('stored object returned exactly once by the full-content query', allc, 'content-count')):
+                if val == 1:
+                    chk.ob(nm + '/' + lab, 'proved', True, 0, sample={'obligation': nm + '/' + lab, 'voxel counts': item['iout'][3:6]} if len(chk.samples) < 12 else None)
+                else:
+                    rep = replay_neigh(native, g, item['model'], names)
+                    chk.ob(nm + '/' + lab, 'violated' if rep['reproduced'] else 'unknown', True, 0, detail={'value': val, 'replay': rep})
+                    if rep['reproduced']:
+                        chk.violation('C20/O5/uspg_%dd/%s' % (g, key), '%s/%s: count %r; %s' % (nm, lab, val, rep['what']), rep)
+        if not good: chk.fail_closed.append(tag + ': no feasible path')
+
+def replay_neigh(native, g, model, names):
+    if not model: return {'reproduced': False, 'what': 'no model'}
+    din = [float(model.get(n, 0.0)) for n in names]
+    # the doubles actually fed to the native code must themselves satisfy the preconditions (rounding of the rational model may break them)
+    okpre = din[6] > 0 and all(din[k] < din[3 + k] and din[k] <= din[7 + k] <= din[3 + k] and din[k] <= din[10 + k] <= din[3 + k] for k in range(3))
+    if not okpre:
+        return {'reproduced': False, 'what': 'model does not survive conversion to doubles (preconditions violated after rounding)', 'din': din}
+    q = native.call('h_c20_neigh', din, [g])
+    if q['status'] == 'crash': return {'reproduced': True, 'what': 'native run crashed (rc %r)' % q.get('rc'), 'din': din}
+    if q['status'] != 0 or len(q['i']) < 3: return {'reproduced': False, 'what': 'native run failed %r' % (q,), 'din': din}
+    own, nb, allc = q['i'][0:3]
+    v = din[6]
+    close = all(abs(din[7 + k] - din[10 + k]) <= v for k in range(3))
+    bad = []
+    if own != 1: bad.append('object not in its own voxel')
+    if nb != 1 and close: bad.append('object at %r missed by the neighbourhood of %r (voxel size %r)' % (din[7:10], din[10:13], v))
+    if allc != 1: bad.append('grid content returns the object %d times' % allc)
+    return {'reproduced': bool(bad), 'what': '; '.join(bad) if bad else 'native run finds the object', 'din': din, 'native': q['i']}
 
 def o3(chk, ir, native, z, nop):
     names = ['nbx', 'nby', 'nbz', 'ix', 'iy', 'iz']
